@@ -605,6 +605,27 @@ fn main() {
         pair(&mut cx, &mut rng, &o, &n, &blks, "resync");
     }
 
+    // 3b. multi-chunk extra blocks: an inserted run longer than (and not a multiple of) the
+    //     streaming buffer, followed by further entries that carry extra bytes of their own — the
+    //     shape in which a streaming patcher that mis-sizes one buffer refill steals bytes from a
+    //     later extra block (seeded change C16-3 slipped through before this stream existed)
+    let n_multi = if thorough { 24 } else { 8 };
+    for i in 0..n_multi {
+        let bf = cx.bufs[i % cx.bufs.len()].max(64);
+        let seg = |rng: &mut Rng, n: usize| rand_bytes(rng, n, 0);
+        let (la, lb, lc) = (rng.range(200, 500) as usize, rng.range(200, 500) as usize, rng.range(200, 500) as usize);
+        let a = seg(&mut rng, la);
+        let b = seg(&mut rng, lb);
+        let c = seg(&mut rng, lc);
+        let l1 = match i % 4 { 0 => bf + 1, 1 => bf + bf / 2 + 7, 2 => 2 * bf + 300, _ => 3 * bf - 1 };
+        let l2 = *rng.pick(&[1usize, 17, 100, 255]);
+        let x = seg(&mut rng, l1);
+        let y = seg(&mut rng, l2);
+        let o = [a.clone(), b.clone(), c.clone()].concat();
+        let n = [a, x, b, y, c].concat();
+        pair(&mut cx, &mut rng, &o, &n, &[64, 1 << 20], "multi-chunk-extra");
+    }
+
     // 4. random edit pairs
     let n_rand = if thorough { 1500 } else { 260 };
     for i in 0..n_rand {
